@@ -1,32 +1,43 @@
 --------------------------- MODULE CacheAsideTrace ---------------------------
 (***************************************************************************)
 (* Trace specification for the concurrent-readers clause of property C06:  *)
-(* validates a trace recorded from the real sqlc.CachedConn.QueryRow       *)
-(* (harness/c06, TestVerifC06Concurrent).                                  *)
+(* validates a trace recorded from the real sqlc.CachedConn (QueryRow and  *)
+(* QueryRowIndex; harness/c06, TestVerifC06Concurrent).                    *)
 (*                                                                         *)
+(* Keys: plain primary keys read with QueryRow, and pairs <<i, q>> of an   *)
+(* index key i read with QueryRowIndex and the primary key q it leads to.  *)
 (* Events (one JSON object per line, file order = order of the sequence    *)
 (* numbers taken under the tracer's mutex):                                *)
-(*   write k d      the row behind key k now has payload d ("" = no row);  *)
-(*                  the key has been removed from the cache (sequential    *)
-(*                  phase: no read of k is pending)                        *)
-(*   inv r k        reader r calls QueryRow for k                          *)
-(*   dbb k / dbe k  the database callback for k is entered / left          *)
+(*   write k d      the row behind key k (plain or index key) now has      *)
+(*                  payload d ("" = no row); the key (and the primary key  *)
+(*                  of an index key) has been removed from the cache       *)
+(*                  (sequential phase: no read of k is pending)            *)
+(*   inv r k        reader r calls QueryRow / QueryRowIndex for k          *)
+(*   dbb k on / dbe k   a database callback for cache key k is entered /   *)
+(*                  left; `on` is the key the calling reader asked for (an *)
+(*                  index read may query by index key and by primary key)  *)
 (*   ret r k res d  reader r returns ("row" with payload d, or "nf")       *)
+(*   keys ks        the set of keys Redis holds at the end of the round    *)
 (*   ttl k kind ttl what Redis holds for k at the end of the round         *)
 (* What the statement promises about such a trace:                         *)
-(*   - at most one database query per key in flight (invariant),           *)
-(*   - a query is only made on behalf of a pending reader of that key,     *)
+(*   - at most one database query per cache key in flight (invariant),     *)
+(*   - a query is only made on behalf of a pending reader,                 *)
 (*   - once a query for k has ended the database is not reached again for  *)
-(*     k until the next write (value or placeholder remembered),           *)
+(*     k until the next write (value or placeholder remembered; an index   *)
+(*     query that found the row also stores it under its primary key),     *)
 (*   - every reader returns the current row / not-found, and only after a  *)
 (*     query for the key has ended (the key was uncached),                 *)
-(*   - the stored TTL is within +-5 % of the configured expiry.            *)
+(*   - Redis ends up holding exactly the entries of the keys read (no      *)
+(*     entry under any other name), with TTLs within +-5 % of the          *)
+(*     configured expiry (+ the 5 s gap for a primary entry written by an  *)
+(*     index read).                                                        *)
 (* A trace that cannot take its next event deadlocks: TLC reports the      *)
 (* position l of the first event the specification does not allow.         *)
 (***************************************************************************)
 EXTENDS Integers, Sequences, FiniteSets, TLC, Json
 
-CONSTANTS TKeys,     \* keys read
+CONSTANTS TKeys,     \* all cache keys (plain, index and primary keys of pairs)
+          Pairs,     \* set of <<index key, primary key>>
           Readers,   \* reader ids
           TE, TNF    \* configured expiry / not-found expiry (s)
 
@@ -38,55 +49,89 @@ tvars == <<l, cur, inflight, filled, pend>>
 
 TLo(b) == (b * 95 + 99) \div 100     \* ceil(0.95 b)
 THi(b) == (b * 105 + 99) \div 100    \* ceil(1.05 b)
+TGap == 5
+
+IdxKeys == {pr[1] : pr \in Pairs}
+PrimKeys == {pr[2] : pr \in Pairs}
+PlainKeys == TKeys \ (IdxKeys \cup PrimKeys)
+ReadKeys == PlainKeys \cup IdxKeys          \* keys readers ask for; cur is defined on them
+PrimOf(i) == (CHOOSE pr \in Pairs : pr[1] = i)[2]
+IdxOf(q) == (CHOOSE pr \in Pairs : pr[2] = q)[1]
 
 TInit == /\ l = 1
-         /\ cur = [k \in TKeys |-> ""]
+         /\ cur = [k \in ReadKeys |-> ""]
          /\ inflight = [k \in TKeys |-> 0]
          /\ filled = [k \in TKeys |-> FALSE]
          /\ pend = [r \in Readers |-> ""]
 
 ev == TraceLog[l]
 
+\* keys removed from the cache by a write of read key k
+Wiped(k) == IF k \in IdxKeys THEN {k, PrimOf(k)} ELSE {k}
+
 Write == /\ ev.e = "write"
+         /\ ev.k \in ReadKeys
          /\ \A r \in Readers : pend[r] # ev.k
-         /\ inflight[ev.k] = 0
+         /\ \A k \in Wiped(ev.k) : inflight[k] = 0
          /\ cur' = [cur EXCEPT ![ev.k] = ev.d]
-         /\ filled' = [filled EXCEPT ![ev.k] = FALSE]
+         /\ filled' = [k \in TKeys |-> IF k \in Wiped(ev.k) THEN FALSE ELSE filled[k]]
          /\ UNCHANGED <<inflight, pend>>
 
 Inv == /\ ev.e = "inv"
+       /\ ev.k \in ReadKeys
        /\ pend[ev.r] = ""
        /\ pend' = [pend EXCEPT ![ev.r] = ev.k]
        /\ UNCHANGED <<cur, inflight, filled>>
 
 \* (a second query in flight is accepted here so that the invariant, not a deadlock, reports it)
 DbBegin == /\ ev.e = "dbb"
-           /\ \E r \in Readers : pend[r] = ev.k
+           /\ ev.k \in TKeys
+           /\ \E r \in Readers : pend[r] = ev.on
+           /\ ev.on = ev.k \/ (ev.on \in IdxKeys /\ ev.k = PrimOf(ev.on))
            /\ ~filled[ev.k]
            /\ inflight' = [inflight EXCEPT ![ev.k] = @ + 1]
            /\ UNCHANGED <<cur, filled, pend>>
 
+\* an index query that found its row has stored the row under the primary key as well
+FilledBy(k) == IF k \in IdxKeys /\ cur[k] # "" THEN {k, PrimOf(k)} ELSE {k}
+
 DbEnd == /\ ev.e = "dbe"
+         /\ ev.k \in TKeys
          /\ inflight[ev.k] >= 1
          /\ inflight' = [inflight EXCEPT ![ev.k] = @ - 1]
-         /\ filled' = [filled EXCEPT ![ev.k] = TRUE]
+         /\ filled' = [k \in TKeys |-> IF k \in FilledBy(ev.k) THEN TRUE ELSE filled[k]]
          /\ UNCHANGED <<cur, pend>>
 
 Ret == /\ ev.e = "ret"
+       /\ ev.k \in ReadKeys
        /\ pend[ev.r] = ev.k
        /\ filled[ev.k]
        /\ IF cur[ev.k] = "" THEN ev.res = "nf" ELSE ev.res = "row" /\ ev.d = cur[ev.k]
        /\ pend' = [pend EXCEPT ![ev.r] = ""]
        /\ UNCHANGED <<cur, inflight, filled>>
 
+\* after both waves every key read is remembered, the primary key of an index key iff its row exists
+Expected == ReadKeys \cup {PrimOf(i) : i \in {x \in IdxKeys : cur[x] # ""}}
+
+KeysEv == /\ ev.e = "keys"
+          /\ {ev.ks[j] : j \in 1..Len(ev.ks)} = Expected
+          /\ UNCHANGED <<cur, inflight, filled, pend>>
+
 Ttl == /\ ev.e = "ttl"
-       /\ IF cur[ev.k] = "" THEN ev.kind = "placeholder" /\ ev.ttl \in TLo(TNF)..THi(TNF)
-                            ELSE ev.kind = "row" /\ ev.ttl \in TLo(TE)..THi(TE)
+       /\ ev.k \in TKeys
+       /\ CASE ev.k \in PlainKeys ->
+                 IF cur[ev.k] = "" THEN ev.kind = "placeholder" /\ ev.ttl \in TLo(TNF)..THi(TNF)
+                                  ELSE ev.kind = "row" /\ ev.ttl \in TLo(TE)..THi(TE)
+            [] ev.k \in IdxKeys ->
+                 IF cur[ev.k] = "" THEN ev.kind = "placeholder" /\ ev.ttl \in TLo(TNF)..THi(TNF)
+                                  ELSE ev.kind = "primary-id" /\ ev.ttl \in TLo(TE)..THi(TE)
+            [] ev.k \in PrimKeys ->
+                 cur[IdxOf(ev.k)] # "" /\ ev.kind = "row" /\ (ev.ttl - TGap) \in TLo(TE)..THi(TE)
        /\ UNCHANGED <<cur, inflight, filled, pend>>
 
 TNext == \/ /\ l <= Len(TraceLog)
             /\ l' = l + 1
-            /\ (Write \/ Inv \/ DbBegin \/ DbEnd \/ Ret \/ Ttl)
+            /\ (Write \/ Inv \/ DbBegin \/ DbEnd \/ Ret \/ KeysEv \/ Ttl)
          \/ /\ l > Len(TraceLog)
             /\ UNCHANGED tvars
 
